@@ -90,4 +90,8 @@ def setInter (a b : List Nat) : List Nat := a.eraseDups.filter (fun v => b.conta
 /-- `set(a) == set(b)` -/
 def setEq (a b : List Nat) : Bool := a.all (b.contains ·) && b.all (a.contains ·)
 
+/-- `try: return obj.attr  except Exception: return None` where `obj` may be `None`: reading an attribute of `None` raises
+`AttributeError`, which the handler turns into `None` -/
+def tryAttr {β μ : Type} (obj : Option β) (attr : β → μ) : Option μ := obj.map attr
+
 end Mouette.VolS
